@@ -1,25 +1,30 @@
 import Driver.EngIE
+import Driver.EngDec
 open Driver
 
-def dispatch (line : String) : String :=
+def dispatch (s : DState) (line : String) : DState × String :=
   match fields line with
-  | [] => "skip"
+  | [] => (s, "skip")
   | e :: args =>
-    if e.startsWith "#" then "skip"
-    else if e == "ie" then engIE args
+    if e.startsWith "#" then (s, "skip")
+    else if e == "ie" then (s, engIE args)
+    else if e == "dec" then engDec s args
     else if e == "chk" then
       match args with
-      | "ie" :: rest => chkIE rest
-      | _ => "na"
-    else "bad-op"
+      | "ie" :: rest => (s, chkIE rest)
+      | "dec" :: rest => chkDec true s rest
+      | "decm" :: rest => chkDec false s rest
+      | _ => (s, "na")
+    else (s, "bad-op")
 
-partial def loop (h : IO.FS.Stream) (out : IO.FS.Stream) : IO Unit := do
+partial def loop (h : IO.FS.Stream) (out : IO.FS.Stream) (s : DState) : IO Unit := do
   let line ← h.getLine
   if line.isEmpty then return ()
-  out.putStrLn (dispatch (line.trimRight))
-  loop h out
+  let (s', o) := dispatch s (line.trimRight)
+  out.putStrLn o
+  loop h out s'
 
 def main : IO Unit := do
   let stdin ← IO.getStdin
   let stdout ← IO.getStdout
-  loop stdin stdout
+  loop stdin stdout {}
